@@ -373,6 +373,15 @@ class World:
                 h.state = "dropped"
         self.add_object(rid, st.get("wc", False))
 
+    def st_setcap_keep(self, st):
+        """The capacity in force BEFORE any buffered context is entered (a permanent setting, e.g. 0 = write through)."""
+        cls = self.cls_of(st["family"], st["kind"])
+        if not hasattr(cls, "set_buffer_capacity") or self.ctx:
+            raise Skip()
+        res = self.call(lambda: cls.set_buffer_capacity(st["n"]))
+        if isinstance(res, M.Raised):
+            raise Violation("context_error", f"set_buffer_capacity({st['n']}) outside every context raised {res!r}")
+
     def st_setcap_cur(self, st):
         """Set the capacity to the current buffer size: nothing is flushed now, the next buffered save forces a flush."""
         cls = self.cls_of(st["family"], st["kind"])
@@ -388,6 +397,22 @@ class World:
         real = r.ident[:-5] + ".real.json"
         os.rename(r.ident, real)
         os.symlink(real, r.ident)
+
+    def st_rebind(self, st):
+        """Point an object (JSON families) at the file of another resource: obj.filename = <path of resource rid>."""
+        oid, rid = st["oid"], st["rid"]
+        if oid >= len(self.objs) or rid >= len(self.res):
+            raise Skip()
+        ob, r = self.objs[oid], self.res[rid]
+        if not ob.alive or r.store != "file" or not hasattr(type(ob.o), "filename") or self.res[ob.rid].kind != r.kind:
+            raise Skip()
+        res = self.call(lambda: setattr(ob.o, "filename", r.ident))
+        if isinstance(res, M.Raised):
+            raise Violation("construct_failed", f"obj.filename = ... raised {res!r}")
+        ob.rid = rid
+        for h in self.handles:
+            if h is not None and h.oid == oid and h.path:
+                h.state = "dropped"
 
     def st_drop_gc(self, st):
         """Inside a backend-wide buffered context the user drops every reference to a collection object and the garbage
